@@ -14,18 +14,22 @@ use futures::StreamExt;
 struct Shared {
     items: Vec<(u64, bool)>,
     in_flight: AtomicI64, max_in_flight: AtomicI64, done: AtomicI64, last_done_ms: AtomicI64,
-    err_cb: AtomicI64, close_cb: AtomicI64, status_cb: AtomicI64,
+    err_cb: AtomicI64, err_started: AtomicI64, err_at_close: AtomicI64, err_started_at_close: AtomicI64, close_cb: AtomicI64, status_cb: AtomicI64,
     counters: Mutex<(i64, i64, i64)>,
     t0: tokio::time::Instant,
 }
-struct Guard(Arc<Shared>);
-impl Guard { fn enter(s: &Arc<Shared>) -> Self { let n = s.in_flight.fetch_add(1, SeqCst) + 1; s.max_in_flight.fetch_max(n, SeqCst); Guard(s.clone()) } }
-impl Drop for Guard { fn drop(&mut self) {
-    self.0.in_flight.fetch_sub(1, SeqCst); self.0.done.fetch_add(1, SeqCst);
-    self.0.last_done_ms.store(self.0.t0.elapsed().as_millis() as i64, SeqCst);
-} }
+struct Guard(Arc<Shared>, bool);       // .1 = the item failed: it is fully processed only when its (awaited) error callback has finished
+impl Guard { fn enter(s: &Arc<Shared>) -> Self { let n = s.in_flight.fetch_add(1, SeqCst) + 1; s.max_in_flight.fetch_max(n, SeqCst); Guard(s.clone(), false) } }
+fn processed(s: &Shared) {
+    s.in_flight.fetch_sub(1, SeqCst); s.done.fetch_add(1, SeqCst);
+    s.last_done_ms.store(s.t0.elapsed().as_millis() as i64, SeqCst);
+}
+impl Drop for Guard { fn drop(&mut self) { if !self.1 { processed(&self.0); } } }
 
 const METRICS: usize = Instruments::MetricsWithoutLogs.into();
+const EXPENSIVE: usize = Instruments::ExpensiveMetricsWithoutLogs.into();
+const COUNTERS_ONLY: usize = Instruments::Custom(1).into();
+const NONE: usize = Instruments::NoInstruments.into();
 type BoxErr = Box<dyn std::error::Error + Send + Sync>;
 
 fn status_code(s: ExecutorStatus) -> i64 { match s { ExecutorStatus::NotStarted => 0, ExecutorStatus::Running => 1, ExecutorStatus::ScheduledToFinish => 2, ExecutorStatus::ProgrammaticallyEnded => 3, ExecutorStatus::StreamEnded => 4 } }
@@ -33,6 +37,7 @@ fn status_code(s: ExecutorStatus) -> i64 { match s { ExecutorStatus::NotStarted 
 fn on_close(sh: Arc<Shared>) -> impl FnOnce(Arc<dyn StreamExecutorStats + Send + Sync>) -> std::pin::Pin<Box<dyn std::future::Future<Output=()> + Send>> + Send + Sync + 'static {
     move |ex| Box::pin(async move {
         sh.close_cb.fetch_add(1, SeqCst);
+        sh.err_at_close.store(sh.err_cb.load(SeqCst), SeqCst); sh.err_started_at_close.store(sh.err_started.load(SeqCst), SeqCst);
         sh.status_cb.store(status_code(ex.executor_status().load(SeqCst)), SeqCst);
         *sh.counters.lock().unwrap() = (ex.ok_events_avg_future_duration().probe().0 as i64, ex.failed_events_avg_future_duration().probe().0 as i64,
                                          ex.timed_out_events_avg_future_duration().probe().0 as i64);
@@ -49,28 +54,28 @@ macro_rules! drive { ($uni:expr, $sh:expr, $case:expr) => {{
     let c = *sh.counters.lock().unwrap();
     vec![2, 0, 70, c.0, c.1,  2, 0, 71, c.2, sh.err_cb.load(SeqCst),  2, 0, 72, sh.max_in_flight.load(SeqCst), done_at_close,
          2, 0, 73, sh.last_done_ms.load(SeqCst), closed as i64,  2, 0, 74, sh.close_cb.load(SeqCst), sh.done.load(SeqCst),
-         2, 0, 75, sh.status_cb.load(SeqCst), 0,  9]
+         2, 0, 75, sh.status_cb.load(SeqCst), 0,  2, 0, 78, sh.err_at_close.load(SeqCst), sh.err_started_at_close.load(SeqCst),  9]
 }}; }
 
-macro_rules! kinds { ($unitype:ident, $case:expr, $sh:expr) => {{
+macro_rules! kinds { ($unitype:ident, $case:expr, $sh:expr, $instr:expr) => {{
     let sh: Arc<Shared> = $sh;
     let limit = $case.get("L", 1) as u32;
     let tau = Duration::from_millis($case.get("tau", 0) as u64);
     match $case.gets("kind") {
         "ff" => {
             let (s1, s2, s3) = (sh.clone(), sh.clone(), sh.clone());
-            let uni = $unitype::<u32, 64, 1, METRICS>::new("u").spawn_executors(limit, tau,
+            let uni = $unitype::<u32, 64, 1, {$instr}>::new("u").spawn_executors(limit, tau,
                 move |stream| { let s1 = s1.clone(); stream.map(move |i: u32| { let s = s1.clone(); async move {
-                    let _g = Guard::enter(&s); let (d, f) = s.items[i as usize];
+                    let mut g = Guard::enter(&s); let (d, f) = s.items[i as usize];
                     if d > 0 { tokio::time::sleep(Duration::from_millis(d)).await; }
-                    if f { Err::<u32, BoxErr>(Box::from("failing as requested")) } else { Ok(i) } } }) },
-                move |_err| { let s = s2.clone(); async move { s.err_cb.fetch_add(1, SeqCst); } },
+                    if f { g.1 = true; Err::<u32, BoxErr>(Box::from("failing as requested")) } else { Ok(i) } } }) },
+                move |_err| { let s = s2.clone(); async move { s.err_started.fetch_add(1, SeqCst); tokio::time::sleep(Duration::from_millis(3)).await; s.err_cb.fetch_add(1, SeqCst); processed(&s); } },
                 on_close(s3));
             drive!(uni, sh, $case)
         },
         "fn" => {
             let (s1, s3) = (sh.clone(), sh.clone());
-            let uni = $unitype::<u32, 64, 1, METRICS>::new("u").spawn_futures_executors(limit, tau,
+            let uni = $unitype::<u32, 64, 1, {$instr}>::new("u").spawn_futures_executors(limit, tau,
                 move |stream| { let s1 = s1.clone(); stream.map(move |i: u32| { let s = s1.clone(); async move {
                     let _g = Guard::enter(&s); let (d, _f) = s.items[i as usize];
                     if d > 0 { tokio::time::sleep(Duration::from_millis(d)).await; }
@@ -80,16 +85,16 @@ macro_rules! kinds { ($unitype:ident, $case:expr, $sh:expr) => {{
         },
         "nf" => {
             let (s1, s2, s3) = (sh.clone(), sh.clone(), sh.clone());
-            let uni = $unitype::<u32, 64, 1, METRICS>::new("u").spawn_fallibles_executors(limit,
+            let uni = $unitype::<u32, 64, 1, {$instr}>::new("u").spawn_fallibles_executors(limit,
                 move |stream| { let s1 = s1.clone(); stream.map(move |i: u32| { let _g = Guard::enter(&s1); let (_d, f) = s1.items[i as usize];
                     if f { Err::<u32, BoxErr>(Box::from("failing as requested")) } else { Ok(i) } }) },
-                move |_err| { s2.err_cb.fetch_add(1, SeqCst); },
+                move |_err| { s2.err_started.fetch_add(1, SeqCst); s2.err_cb.fetch_add(1, SeqCst); },
                 on_close(s3));
             drive!(uni, sh, $case)
         },
         "nn" => {
             let (s1, s3) = (sh.clone(), sh.clone());
-            let uni = $unitype::<u32, 64, 1, METRICS>::new("u").spawn_non_futures_non_fallibles_executors(limit,
+            let uni = $unitype::<u32, 64, 1, {$instr}>::new("u").spawn_non_futures_non_fallibles_executors(limit,
                 move |stream| { let s1 = s1.clone(); stream.map(move |i: u32| { let _g = Guard::enter(&s1); i }) },
                 on_close(s3));
             drive!(uni, sh, $case)
@@ -150,13 +155,20 @@ pub fn run(case: &Case) -> Vec<i64> {
     let rt = tokio::runtime::Builder::new_current_thread().enable_time().start_paused(true).build().unwrap();
     rt.block_on(async {
         let sh = Arc::new(Shared { items, in_flight: AtomicI64::new(0), max_in_flight: AtomicI64::new(0), done: AtomicI64::new(0), last_done_ms: AtomicI64::new(0),
-                                   err_cb: AtomicI64::new(0), close_cb: AtomicI64::new(0), status_cb: AtomicI64::new(-1), counters: Mutex::new((-1, -1, -1)),
+                                   err_cb: AtomicI64::new(0), err_started: AtomicI64::new(0), err_at_close: AtomicI64::new(-1), err_started_at_close: AtomicI64::new(-1), close_cb: AtomicI64::new(0), status_cb: AtomicI64::new(-1), counters: Mutex::new((-1, -1, -1)),
                                    t0: tokio::time::Instant::now() });
-        match case.gets("chan") {
-            "full_sync" => kinds!(UniMoveFullSync, case, sh),
-            "atomic"    => kinds!(UniMoveAtomic, case, sh),
-            "crossbeam" => kinds!(UniMoveCrossbeam, case, sh),
+        macro_rules! chans { ($instr:expr) => { match case.gets("chan") {
+            "full_sync" => kinds!(UniMoveFullSync, case, sh, $instr),
+            "atomic"    => kinds!(UniMoveAtomic, case, sh, $instr),
+            "crossbeam" => kinds!(UniMoveCrossbeam, case, sh, $instr),
             other => panic!("exec: unknown channel kind {other}"),
+        } } }
+        match case.gets("instr") {
+            "" | "metrics" => chans!(METRICS),
+            "expensive"    => chans!(EXPENSIVE),
+            "counters"     => chans!(COUNTERS_ONLY),
+            "none"         => chans!(NONE),
+            other => panic!("exec: unknown instrument setting {other}"),
         }
     })
 }
